@@ -234,7 +234,9 @@ struct ChunkResult {
 fn run_chunk(id: &str, tier: Tier, space: &str, lo: u64, hi: u64, worker: usize, max_deaths: usize) -> ChunkResult {
     use std::os::unix::process::ExitStatusExt;
     let exe = std::env::current_exe().expect("current_exe");
-    let shm_path = format!("/dev/shm/bsvmc-{}-{}.shm", std::process::id(), worker);
+    // shared page for the in-flight index: /dev/shm when it exists and is writable, the temporary directory otherwise
+    let shm_dir = if std::fs::metadata("/dev/shm").map(|m| m.is_dir()).unwrap_or(false) && std::fs::File::create(format!("/dev/shm/bsvmc-probe-{}", std::process::id())).map(|_| std::fs::remove_file(format!("/dev/shm/bsvmc-probe-{}", std::process::id())).is_ok()).unwrap_or(false) { "/dev/shm".to_string() } else { std::env::temp_dir().to_string_lossy().to_string() };
+    let shm_path = format!("{}/bsvmc-{}-{}.shm", shm_dir, std::process::id(), worker);
     let shm = map_shared(&shm_path, true);
     let mut res = ChunkResult { acc: Acc::new(), deaths: vec![], done: 0, unattributed: vec![] };
     let mut cur = lo;
